@@ -1,4 +1,6 @@
 mod big;
+mod book18;
+mod book20;
 mod book19;
 mod floatchk;
 mod native;
@@ -76,7 +78,9 @@ fn run_line(line: &str) -> String {
 fn main() {
     let argv: Vec<String> = std::env::args().collect();
     let mode = argv.get(1).map(|s| s.as_str()).unwrap_or("run");
-    panic::set_hook(Box::new(|_| {}));
+    if mode == "run" {
+        panic::set_hook(Box::new(|_| {}));
+    }
     match mode {
         "run" => {
             let stdin = std::io::stdin();
@@ -102,6 +106,8 @@ fn main() {
             let full = argv.get(5).map(|s| s == "full").unwrap_or(false);
             match which {
                 "c13" => native::c13(n, seed, full),
+                "c18" => book18::c18(),
+                "c20" => book20::c20(n as usize, seed),
                 "c19" => book19::c19(n as usize),
                 "c06" => floatchk::c06(n, seed),
                 "c07" => floatchk::c07(n, seed),
